@@ -1,0 +1,35 @@
+//go:build verif
+
+// Machine-checked contracts for this package (comment-only; compiled only under the
+// build tag `verif`, where it still contains no code). Checked by /verif/govc.
+package keeper
+
+// ---- swap messages: dry run on a discarded cache context, then one queue entry ---------------
+
+// The routing functions are not looked into here: any state change is allowed for (weakest
+// contract). Their callers below run them on a cache context whose write function is dropped.
+//@ func (Keeper).RouteExactAmountIn
+//@ modifies world
+//@ havoc-only
+
+//@ func (Keeper).RouteExactAmountOut
+//@ modifies world
+//@ havoc-only
+
+//@ func (Keeper).CalcSwapEstimationByDenom
+//@ modifies module:amm
+//@ frame-only
+
+// Accepting a swap message changes nothing but this module's (transient) request queue:
+// in particular no balance moves until the end-of-block batch.
+//@ func (Keeper).SwapExactAmountIn
+//@ ensures C04,C20/accept-only-enqueues: true
+//@ modifies module:amm
+
+//@ func (Keeper).SwapExactAmountOut
+//@ ensures C04,C20/accept-only-enqueues: true
+//@ modifies module:amm
+
+//@ func (Keeper).SwapByDenom
+//@ ensures C04,C20/accept-only-enqueues: true
+//@ modifies module:amm
